@@ -124,6 +124,10 @@ func run(op string, args []string) string {
 				}
 			}
 			return hx(first)
+		case "icu":
+			return u64s(codec.EncodeIntToCmpUint(parseI(args[0])))
+		case "cui":
+			return i64s(codec.DecodeCmpUintToInt(parseU(args[0])))
 		case "eu":
 			return hx(codec.EncodeUint(nil, parseU(args[0])))
 		case "eud":
@@ -347,6 +351,14 @@ func propsInts(a, b int64, rest []byte) {
 		}
 		prop(e.name+"_prefix_free", a == b || !bytes.HasPrefix(eb, ea), i64s(a), i64s(b))
 	}
+	// the exported sign-flip pair: a bijection int64 <-> uint64 (both directions) that is monotone (both directions),
+	// and the fixed-width int encodings are the uint encodings of the flipped value
+	ca, cb := codec.EncodeIntToCmpUint(a), codec.EncodeIntToCmpUint(b)
+	prop("cmpuint_roundtrip", codec.DecodeCmpUintToInt(ca) == a && codec.EncodeIntToCmpUint(codec.DecodeCmpUintToInt(uint64(a))) == uint64(a), i64s(a))
+	prop("cmpuint_order", (a < b) == (ca < cb) && (a == b) == (ca == cb), i64s(a), i64s(b))
+	da, db := codec.DecodeCmpUintToInt(uint64(a)), codec.DecodeCmpUintToInt(uint64(b))
+	prop("cmpuint_decode_order", (uint64(a) < uint64(b)) == (da < db) && (a == b) == (da == db), i64s(a), i64s(b))
+	prop("int_is_uint_of_cmpuint", bytes.Equal(codec.EncodeInt(nil, a), codec.EncodeUint(nil, ca)) && bytes.Equal(codec.EncodeIntDesc(nil, a), codec.EncodeUintDesc(nil, ca)), i64s(a))
 	ua, ub := uint64(a), uint64(b)
 	type encU struct {
 		name string
@@ -615,6 +627,8 @@ func main() {
 			b = a + int64(rng.Intn(5)) - 2
 		}
 		rest := rb(rng.Intn(3))
+		emit("icu", i64s(a))
+		emit("cui", u64s(uint64(a)))
 		emit("ei", i64s(a))
 		emit("eid", i64s(a))
 		emit("ev", i64s(a))
